@@ -23,6 +23,11 @@ void
 BitArrayT<NC_>::set() noexcept {
 	for (uint8_t& unit : _storage)
 		unit = UINT8_MAX;
+
+	constexpr Index PADDED_BITS = CAPACITY % 8;
+
+	if (PADDED_BITS != 0)
+		_storage[UNIT_COUNT - 1] = static_cast<uint8_t>((1 << PADDED_BITS) - 1);
 }
 
 // - - - - - - - - - - - - - - - - - - - - - - - - - - - - - - - - - - - - - - -
